@@ -21,9 +21,10 @@
 (* sort.Search lower bound), b303e5c (Python first_block likewise),        *)
 (* bc06505 (EscapeName escapes the backslash), 64bfb12 (loadManifest       *)
 (* creates no zero-length segment) and 6bfe9ac (manifestEscape also        *)
-(* escapes DEL and invalid UTF-8).  The defects those commits repaired     *)
-(* (KF-C10-1a/1b/1c, KF-C10-2, KF-C10-3) are kept as HISTORY operators     *)
-(* with checkable lemmas; no invariant has an exclusion any more.          *)
+(* escapes DEL and invalid UTF-8), 600e812 and 70b8032 (range checks of    *)
+(* both Go parsers do not wrap around).  The defects those commits         *)
+(* repaired (KF-C10-1a/1b/1c, -2, -3, -5, -6) are kept as HISTORY          *)
+(* operators with checkable lemmas; no invariant has an exclusion.         *)
 (* (KF-C10-4, the lenient stream name of loadManifest, concerns malformed  *)
 (* text and lives in ManifestContract!MustReject, not in these models.)    *)
 (***************************************************************************)
@@ -412,6 +413,24 @@ OldLoaderWasWrong == \A i \in DOMAIN sc.streams :
 SomeOldLoaderFailure == \E i \in DOMAIN sc.streams : \E f \in FileNamesOf(sc.streams[i]) :
     LET s == sc.streams[i]  want == WantBytes(s, f)
     IN \E o \in 0 .. Len(want) - 1 : GoFsReadByte(GoFsFileK(s, f, TRUE), Len(want), o) # want[o + 1]
+
+\* The range checks of the two Go parsers, over machine integers that wrap around at W (uint64: W = 2^64;
+\* int64: values 0 .. W-1 non-negative, a sum >= W is negative).  TLC integers are 32 bit, so W is small
+\* here; the argument does not depend on its value.
+W == 16
+Wrap(x) == x % W
+\* parseManifestStream since 600e812: reject iff SegLen > streamoffset || SegPos > streamoffset-SegLen
+GoManRangeReject(pos, len, total) == len > total \/ pos > total - len
+OldGoManRangeReject(pos, len, total) == Wrap(pos + len) > total                  \* HISTORY (KF-C10-5, fixed)
+\* loadManifest since 70b8032: reject iff offset > MaxInt64-length, else whatever the scan decides, which
+\* for a sum that did not wrap is "pos < offset+length at the end of the stream"
+GoFsRangeReject(pos, len, total) == pos > (W - 1) - len \/ total < pos + len
+OldGoFsRangeReject(pos, len, total) == IF pos + len >= W THEN FALSE ELSE total < pos + len   \* HISTORY (KF-C10-6, fixed): a negative end is never "past the end"
+RangeChecksExact == \A total \in 0 .. W - 1 : \A pos \in 0 .. W - 1 : \A len \in 0 .. W - 1 :
+    /\ GoManRangeReject(pos, len, total) <=> (pos + len > total)
+    /\ GoFsRangeReject(pos, len, total) <=> (pos + len > total)
+OldRangeChecksWrong == /\ \E total, pos, len \in 0 .. W - 1 : pos + len > total /\ ~OldGoManRangeReject(pos, len, total)
+                       /\ \E total, pos, len \in 0 .. W - 1 : pos + len > total /\ ~OldGoFsRangeReject(pos, len, total)
 
 \* The one place where the codecs disagree and the format document decides nothing (see ManifestContract,
 \* "silent"): two consecutive backslashes in manifest text.  Recorded so that a change of either reading shows.
